@@ -49,11 +49,23 @@ def instance_of(F, cname):
     return inst, C
 
 
+class _Cond(list):
+    """field list whose append() marks an entry written under a data-dependent guard"""
+    cond = ()
+
+    def append(self, item):
+        if self.cond:
+            item = ("%s?[%s]" % (item[0], self.cond[0][:60]), item[1])
+        list.append(self, item)
+
+
 def field_sequence(sp):
     """ordered [(attr name, 'w32'|'w16'|'obj')] written by a code marshaller"""
-    out = []
+    out = _Cond()
     from .c14 import merge_chr_writes
     for k, e, _ in merge_chr_writes(flatten_effects(sp.effects)):
+        # a field written only when a *value* of the object satisfies some test is a different layout for some objects
+        out.cond = [show(g) for g in (e.guards or ()) if "x.co_" in show(g) and not show(g).startswith("in-loop")]
         if k == "call" and str(e.args[0]) == "WRITE":
             c = classify_write(e.args[1][0])
             if c[0] in ("le32", "le16") and isinstance(c[1], Sym) and c[1].name.startswith("x.co_"):
@@ -87,6 +99,8 @@ def run(rep, tier):
     rep.rule("R7", "for a Python 2 target a plain str constant is written as TYPE_STRING and an integer that fits 32 bits as TYPE_INT (Python 2 distinguishes str/unicode and int/long)")
     rep.rule("R5", "the reading half of the round trip: every obligation of the unmarshaller (C01 rules: per-type layouts and kinds, unpack formats, "
                    "reference table, t_code field sequence and bindings, bytes-vs-text, fields kept by the portable classes) holds")
+    rep.rule("R8", "the writers of the constants a code object carries (None, bool, int, float, complex, bytes, text, tuple, list, set, frozenset, dict) emit marshal's "
+                   "type codes and payload layouts: C14's writer rules R1-R3 and R9, restated")
     rep.rule("R4", "dumps() converts str chunks byte-for-byte (one byte per char) and passes bytes chunks through unchanged")
     T = tables()
     F = T.F
@@ -305,5 +319,10 @@ def run(rep, tier):
     c01.run(sub, tier)
     merge_sub(rep, sub, "R5", "C01")
     rep.configurations += sub.configurations
+    # ---------------------------------------------------------------- R8 the constant writers (shared with C14)
+    from . import c14
+    sub14 = SubReport("C14", tier=tier)
+    c14.run(sub14, tier)
+    merge_sub(rep, sub14, "R8", "C14", only_rules=("R1", "R2", "R3", "R9"))
     rep.assumptions = ["reference/code_layout.json and pyc_header.json as in C01/C06", "class -> served versions as selected by codeType2Portable",
                        "equality of executed behaviour, the round trip of constants' values and the py2 str/unicode distinction lost at read time are not decided"]
